@@ -1,0 +1,170 @@
+//! Verification hooks (compiled only with `--cfg anydb_verif`).
+//!
+//! * I/O tap: every action that changes the data file, the metadata file or their durability
+//!   (mmap writes, length changes, syncs, hole punches) is appended to a global log while recording is on.
+//! * Access tap: every byte range fetched from the memory map or the data file on behalf of a region is
+//!   compared with that region's current length; out-of-range accesses are collected.
+//!
+//! With nothing enabled each hook costs one relaxed atomic load.
+use std::cell::RefCell;
+use std::sync::atomic::{AtomicBool, AtomicU64, Ordering};
+
+use parking_lot::Mutex;
+
+use crate::Region;
+
+#[derive(Debug, Clone, PartialEq, Eq)]
+pub enum IoEvent {
+    /// bytes copied into the data-file mapping at `off`
+    WData { off: usize, bytes: Vec<u8> },
+    /// bytes copied into the metadata-file mapping at `off`
+    WMeta { off: usize, bytes: Vec<u8> },
+    /// `set_len` on the data file (`meta == false`) or the metadata file
+    SetLen { meta: bool, len: usize },
+    /// `flush_async*` (schedules write-back, no durability guarantee)
+    FlushAsync { meta: bool },
+    /// `sync_data` / `sync_all` returned for the data file (`meta == false`) or the metadata file
+    Sync { meta: bool },
+    /// hole punched in the data file
+    Punch { off: usize, len: usize },
+}
+
+static IO_ON: AtomicBool = AtomicBool::new(false);
+static IO_LOG: Mutex<Vec<IoEvent>> = Mutex::new(Vec::new());
+
+/// Starts (or restarts) recording I/O events.
+pub fn io_tap_start() {
+    IO_LOG.lock().clear();
+    IO_ON.store(true, Ordering::SeqCst);
+}
+
+/// Stops recording and returns the events recorded so far.
+pub fn io_tap_stop() -> Vec<IoEvent> {
+    IO_ON.store(false, Ordering::SeqCst);
+    std::mem::take(&mut *IO_LOG.lock())
+}
+
+/// Number of events recorded so far (to delimit public calls).
+pub fn io_tap_len() -> usize {
+    IO_LOG.lock().len()
+}
+
+#[inline]
+pub fn io_enabled() -> bool {
+    IO_ON.load(Ordering::Relaxed)
+}
+
+#[inline]
+pub fn io(ev: impl FnOnce() -> IoEvent) {
+    if IO_ON.load(Ordering::Relaxed) {
+        IO_LOG.lock().push(ev());
+    }
+}
+
+// ------------------------------------------------------------------------------------------------
+// access tap
+// ------------------------------------------------------------------------------------------------
+static ACCESS_ON: AtomicBool = AtomicBool::new(false);
+static ACCESS_COUNT: AtomicU64 = AtomicU64::new(0);
+static ACCESS_OOB: Mutex<Vec<String>> = Mutex::new(Vec::new());
+static NEXT_ID: AtomicU64 = AtomicU64::new(1);
+
+thread_local! {
+    /// live readers of this thread: (id, address of the region's first byte in the mapping, region)
+    static READERS: RefCell<Vec<(u64, usize, Region)>> = const { RefCell::new(Vec::new()) };
+}
+
+pub fn access_tap_start() {
+    ACCESS_OOB.lock().clear();
+    ACCESS_COUNT.store(0, Ordering::SeqCst);
+    ACCESS_ON.store(true, Ordering::SeqCst);
+}
+
+/// Returns (number of accesses checked, descriptions of out-of-range accesses) and keeps recording.
+pub fn access_tap_take() -> (u64, Vec<String>) {
+    (
+        ACCESS_COUNT.swap(0, Ordering::SeqCst),
+        std::mem::take(&mut *ACCESS_OOB.lock()),
+    )
+}
+
+pub fn access_tap_stop() {
+    ACCESS_ON.store(false, Ordering::SeqCst);
+}
+
+#[inline]
+pub fn access_enabled() -> bool {
+    ACCESS_ON.load(Ordering::Relaxed)
+}
+
+pub(crate) fn register_reader(base: *const u8, region: &Region) -> u64 {
+    if !access_enabled() {
+        return 0;
+    }
+    let id = NEXT_ID.fetch_add(1, Ordering::Relaxed);
+    READERS.with(|r| r.borrow_mut().push((id, base as usize, region.clone())));
+    id
+}
+
+pub(crate) fn unregister_reader(id: u64) {
+    if id != 0 {
+        let _ = READERS.try_with(|r| r.borrow_mut().retain(|e| e.0 != id));
+    }
+}
+
+fn check(region_id: &str, region_len: usize, off: usize, n: usize, what: &str) {
+    ACCESS_COUNT.fetch_add(1, Ordering::Relaxed);
+    if n > 0 && off.checked_add(n).is_none_or(|end| end > region_len) {
+        let mut v = ACCESS_OOB.lock();
+        if v.len() < 64 {
+            v.push(format!(
+                "{what}: region '{region_id}' bytes [{off}, {}) fetched, region length {region_len}",
+                off.wrapping_add(n)
+            ));
+        }
+    }
+}
+
+/// A slice `[off, off+n)` of `region` (region-relative) is about to be read through a `Reader`.
+#[inline]
+pub fn range_access(region: &Region, off: usize, n: usize) {
+    if access_enabled() {
+        let m = region.meta();
+        check(m.id(), m.len(), off, n, "mmap slice");
+    }
+}
+
+/// `n` bytes at raw pointer `p` (inside the data-file mapping) are about to be read on behalf of the
+/// reader of this thread whose region starts nearest below `p`.
+#[inline]
+pub fn ptr_access(p: *const u8, n: usize) {
+    if access_enabled() {
+        let p = p as usize;
+        let hit = READERS.with(|r| {
+            r.borrow()
+                .iter()
+                .filter(|e| e.1 <= p)
+                .max_by_key(|e| e.1)
+                .map(|e| (e.1, e.2.clone()))
+        });
+        match hit {
+            Some((base, region)) => {
+                let m = region.meta();
+                check(m.id(), m.len(), p - base, n, "mmap pointer");
+            }
+            None => {
+                ACCESS_COUNT.fetch_add(1, Ordering::Relaxed);
+                ACCESS_OOB.lock().push(format!("mmap pointer read of {n} bytes with no live reader on this thread"));
+            }
+        }
+    }
+}
+
+/// `[off, off+n)` (region-relative) was read from the data file with buffered I/O; the caller holds the
+/// region's metadata and passes its id and current length.
+#[inline]
+pub fn io_access(region_id: &str, region_len: usize, off: usize, n: usize) {
+    if access_enabled() {
+        check(region_id, region_len, off, n, "file read");
+    }
+}
